@@ -10,7 +10,8 @@ let run (toks : string list) : string =
     let evs = if evs = "-" then [] else L.map (fun e ->
         if e = "T" then ConnRead.SockTimeout else if e = "E" then ConnRead.SockEOF
         else ConnRead.SockData (unhex (String.sub e 2 (String.length e - 2)))) (split_on ',' evs) in
-    let bs = L.map (fun b -> nat_of_int (int_of_string b)) (split_on ',' bsizes) in
+    (* "w<n>" between reads: a write on the same connection, which the read path does not see *)
+    let bs = L.map (fun b -> nat_of_int (int_of_string b)) (L.filter (fun b -> b <> "" && b.[0] <> 'w') (split_on ',' bsizes)) in
     let ((rs, _), _) = ConnRead.run_reads (not (try Sys.getenv "HC_MODEL_PINNED" = "1" with Not_found -> false)) Framing.cc_open s.Framing.dec_key (ConnRead.init_conn N0) bs evs in
     String.concat " " (L.map (fun r -> match r with
         | ConnRead.RData d -> "d:" ^ hx d
